@@ -327,6 +327,7 @@ def new_nurbs(kind, degs, sizes):
 def run_views(d, on_read):
     from geomdl import knotvector
     o = new_nurbs(d['kind'], d['deg'], d['size'])
+    n_sw = [0]
     for name, val in d['ops']:
         if name == 'sP':
             lst = qpts(val)
@@ -339,9 +340,22 @@ def run_views(d, on_read):
             lst.reverse()
         elif name == 'sW':
             lst = qs(val)
-            o.weights = lst
-            for i_ in range(len(lst)):
-                lst[i_] = lst[i_] + 97
+            n_sw[0] += 1
+            cur = None
+            if n_sw[0] % 2 == 0:
+                try:
+                    cur = o.weights
+                except Exception:
+                    cur = None
+            if isinstance(cur, list) and len(cur) == len(lst):
+                # the idiom `w = obj.weights; w[i] = x; obj.weights = w`: the getter's list edited in place and assigned back
+                for i_ in range(len(lst)):
+                    cur[i_] = lst[i_]
+                o.weights = cur
+            else:
+                o.weights = lst
+                for i_ in range(len(lst)):
+                    lst[i_] = lst[i_] + 97
         elif name == 'sPw':
             o.ctrlptsw = qpts(val)
         elif name == 'gP':
